@@ -59,27 +59,35 @@ def media_for(s, media, arch):
     return [x for x in media if x != "mem"]
 
 
+REPLAY_BATCH = 100000      # scenarios per harness process (the interpreter keeps its scenario file in memory; children run under a 3 GiB cap)
+
+
 def replay(scens, media, chunk, tag, arch="msgpack"):
     """Executes scenarios (dicts with doc/root/pol) on the real archive; returns list (scenario, observation)."""
-    rows = []
-    runmap = []
-    for i, s in enumerate(scens):
-        ms = media_for(s, media, arch)
-        rows.append({"id": "%s%d" % (tag, i), "media": ms, "pol": s["pol"], "doc": s["doc"], "root": s["root"]})
-        runmap += [(i, m) for m in ms]
-    sp = os.path.join(vlib.scratch(), "scn_%s_%d.ndjson" % (tag, chunk))
-    vlib.write_ndjson(sp, rows)
-    obs = vlib.run_resumable([harness(chunk, arch), "load", sp], timeout=1800)
-    os.unlink(sp)
     out = []
-    for o in obs:
-        i, m = runmap[o["run"]]
-        o["medium"] = m
-        o["chunk"] = chunk
-        o["arch"] = arch
-        out.append((scens[i], o))
-    if len(out) != len(runmap):
-        raise vlib.MachineryError("replay %s: %d observations for %d runs" % (tag, len(out), len(runmap)))
+    exe = harness(chunk, arch)
+    for lo in range(0, max(len(scens), 1), REPLAY_BATCH):
+        part = scens[lo:lo + REPLAY_BATCH]
+        rows = []
+        runmap = []
+        for i, s in enumerate(part):
+            ms = media_for(s, media, arch)
+            rows.append({"id": "%s%d" % (tag, lo + i), "media": ms, "pol": s["pol"], "doc": s["doc"], "root": s["root"]})
+            runmap += [(i, m) for m in ms]
+        if not rows:
+            continue
+        sp = os.path.join(vlib.scratch(), "scn_%s_%d_%d.ndjson" % (tag, chunk, lo))
+        vlib.write_ndjson(sp, rows)
+        obs = vlib.run_resumable([exe, "load", sp], timeout=1800)
+        os.unlink(sp)
+        if len(obs) != len(runmap):
+            raise vlib.MachineryError("replay %s: %d observations for %d runs" % (tag, len(obs), len(runmap)))
+        for o in obs:
+            i, m = runmap[o["run"]]
+            o["medium"] = m
+            o["chunk"] = chunk
+            o["arch"] = arch
+            out.append((part[i], o))
     return out
 
 
@@ -106,6 +114,14 @@ def judge(chk, pairs, what):
         exp = s["exp"]
         if matches(exp, o):
             continue
+        if "e" in o and "medium" in o:
+            # crash / hang / terminate: reported only when a run of this scenario alone, in a fresh process, repeats it
+            again = replay([s], [o["medium"]], o["chunk"], "rr", o.get("arch", "msgpack"))
+            if again and "e" not in again[0][1]:
+                chk.cov["abnormal_runs_not_reproduced"] = chk.cov.get("abnormal_runs_not_reproduced", 0) + 1
+                o = again[0][1]
+                if matches(exp, o):
+                    continue
         dev = None
         if o["medium"] == "nonseek" and o.get("refused"):
             dev = "Dev_NonSeekableStream"
